@@ -75,7 +75,7 @@ def make_probes(rng, picks, malformed=None, avoid=None):
         size = ctx["iobuf_size"]
         blocks = []
         text_only = rng.random() < 0.7
-        for _b in range(rng.choice([0, 1, 1, 2, 3, 5])):
+        for _b in range(rng.choice([0, 1, 1, 2, 3, 5]) if size < 1000 else 2):
             addr = ctx["next_addr"][0]
             ctx["next_addr"][0] += size + 16 + 4 * rng.randint(0, 8)
             length = rng.choice([0, 1, size, size, size, max(0, size - 1), rng.randint(0, size)])     # often filled to capacity
@@ -842,13 +842,14 @@ def case_exprs(c, out, sim, tag="k", known=None):
     #                                                  them with ++ makes vm_compute an order of magnitude slower)
 
 
-def coq_eval_cases(chk, triples, shard, timeout=2400):
-    """triples: [(names, defs, expr)] -> list of parsed values (one list of booleans per case)."""
+def coq_eval_cases(chk, triples, shard, timeout=2400, groups=None):
+    """triples: [(names, defs, expr)] -> list of parsed values (one list of booleans per case), in the order of
+    `triples` (or of the concatenation of `groups`, the explicit shards)."""
     import concurrent.futures
-    shards = [triples[i:i + shard] for i in range(0, len(triples), shard)]
+    shards = groups if groups is not None else [triples[i:i + shard] for i in range(0, len(triples), shard)]
     texts = [HEADER + "\n".join(d + "\n" + "\n".join("Eval vm_compute in (%s)." % e for e in es) for _, d, es in sh) + "\n"
              for sh in shards]
-    with concurrent.futures.ThreadPoolExecutor(max_workers=min(12, os.cpu_count() or 4)) as ex:
+    with concurrent.futures.ThreadPoolExecutor(max_workers=min(16, os.cpu_count() or 4)) as ex:
         results = list(ex.map(lambda kt: chk.coqc_text("cases_%d" % kt[0], kt[1], timeout), enumerate(texts)))
     vals = []
     for k, (out, sh) in enumerate(zip(results, shards)):
@@ -954,12 +955,17 @@ def process_batch(chk, sim, cases, state, built):
                 known[i] = parent["stages"][earlier[0]]["sver"]["buffer_size"] if earlier else None
             named = [case_exprs(units[i][1], units[i][2], sim, "c%d" % i, known[i]) for i in idx]
             order = sorted(range(len(named)), key=lambda k: -len(named[k][1]))       # big cases first, spread over shards
-            nshard = max(1, min(24, len(named) // 4))
+            # longest-processing-time-first over as many shards as there are cores; the cost of a case is about
+            # proportional to the size of its literals (plus the start-up of a coqc per shard)
+            nshard = max(1, min(os.cpu_count() or 4, 16, len(named) // 4)) * (1 if chk.tier == "quick" else 2)
             buckets = [[] for _ in range(nshard)]
-            for r, k in enumerate(order):
-                buckets[r % nshard].append(k)
+            load = [0] * nshard
+            for k in order:
+                b = load.index(min(load))
+                buckets[b].append(k)
+                load[b] += len(named[k][1]) + 3000
             flat_order = [k for b in buckets for k in b]
-            got = coq_eval_cases(chk, [named[k] for k in flat_order], shard=max(len(b) for b in buckets))
+            got = coq_eval_cases(chk, None, None, groups=[[named[k] for k in b] for b in buckets if b])
             vals = [None] * len(named)
             for k, v in zip(flat_order, got):
                 vals[k] = v
